@@ -33,6 +33,7 @@ var canonName = map[string]string{
 	"resolveMixedStack": "resolveMixed", "resolveMixedStack1": "resolveMixed",
 	"loadMixedLex": "loadMixed", "loadMixedStack": "loadMixed", "loadMixedStack1": "loadMixed", "loadMixedStackLex": "loadMixed", "loadMixedStack1Lex": "loadMixed",
 	"loadThisStack": "loadStack", "loadThisStash": "loadStack",
+	"initStack1P": "initStackP", "initStashP": "initStackP",
 }
 
 var keepN = map[string]bool{"jump": true, "jne": true, "jeq": true, "jneP": true, "jeqP": true, "jcoalesc": true, "jcoalescP": true,
@@ -75,7 +76,7 @@ func cmdCompile(ctx, src string) string {
 	}
 	units := goja.VerifC01DumpProgram(p)
 	var code []string
-	if ctx == "g" {
+	if ctx == "g" || ctx == "G" {
 		code = units[0].Code
 	} else {
 		if len(units) < 2 {
@@ -90,6 +91,11 @@ func cmdCompile(ctx, src string) string {
 		}
 		if isMarker(ins, "@@2") {
 			end = i
+			// ctx G: the end marker is `var zz = "@@2"` (a statement with an empty result, so that the statement under
+			// test is the last value-producing one of the program): resolveVar1 zz; loadVal; initValueP
+			if ctx == "G" && i > 0 && strings.HasPrefix(code[i-1], "resolveVar1") {
+				end = i - 1
+			}
 		}
 	}
 	if start < 0 || end < start {
@@ -210,9 +216,23 @@ func runOne(src string, obs map[string]int, obsSkip map[string]int, timeout time
 	}
 	// 4. run, traced
 	var o *goja.VerifC01Obs
+	var evalUnits []goja.VerifC01Unit
 	if obs != nil {
 		o = goja.VerifC01Instrument(prg)
+		o.EvalUnits = &evalUnits // code compiled by eval at run time is dumped and verified too
 	}
+	defer func() {
+		for _, u := range evalUnits {
+			endOk := "0"
+			if u.Kind == "eval" {
+				endOk = "1"
+			} else if u.Kind == "fields" || u.Kind == "static" {
+				endOk = "2"
+			}
+			res.Units = append(res.Units, "verify "+endOk+" "+strings.Join(u.Code, ";"))
+			res.unitKinds = append(res.unitKinds, u.Kind)
+		}
+	}()
 	vm := goja.New()
 	vm.SetMaxCallStackSize(400)
 	sp0, _, cs0, ts0, is0, rs0 := goja.VerifC01SP(vm)
